@@ -17,6 +17,11 @@ R09.4  formatting neutrality: for every dispatch row and control-flow script the
        the same C after parsing (identical typed AST modulo parentheses, braces and white space); symbol prefixing
        changes nothing but a `<module>_` prefix on function identifiers
 R09.5  twin emitters: every wasmCWriteFileX / wasmCWriteStringX pair produces the same text for the same arguments
+R09.7  complete outputs: the header, main file and split files are rendered (sequential configuration) for one module with 6
+       functions under every -f N (0..7), several static/dynamic splits, both formatting modes and symbol prefixing: each
+       defined function appears exactly once across the files, split files are numbered 0.. without gaps and none is empty,
+       every function text equals the one of the single-file output, every file passes gcc and clang syntax/type checking on
+       its own against the generated header; the worker passes the task fields to the file writer in parameter order
 R09.6  data-segment embedding neutrality: for modules mixing passive and active segments of different sizes, the blob modes
        (gnu-ld, sectcreate) address segment k at ds + (sum of the sizes of all earlier segments) with the same memory, offset
        and size as the arrays mode uses for d<k>, and the blob writer emits every segment, in order, with its full length
@@ -636,6 +641,141 @@ def builder_text(it, fname, mkargs):
     return ''.join(parts)
 
 
+# ---- R09.7 ----------------------------------------------------------------------------------------
+
+def function_defs(text):
+    """{name: full definition text} of non-static function definitions f<k> / <mod>_f<k> in a rendered C file"""
+    out = {}
+    for m in re.finditer(r'(?m)^(?!static)([A-Za-z_][\w \*]*?)\b((?:mod_)?f\d+)\(([^;{}]*)\)\s*\{', text):
+        i = m.end()
+        depth = 1
+        while i < len(text) and depth:
+            depth += (text[i] == '{') - (text[i] == '}')
+            i += 1
+        out.setdefault(m.group(2), []).append(text[m.start():i])
+    return out
+
+
+def check_whole_outputs(chk, tier):
+    import os
+    import subprocess
+    import tempfile
+    from .. import render as R
+    tus = R.sequential_tus(chk)
+    it = c06.make(tus)
+    mk = lambda: R.sample_module(it)
+    K = 6
+    all_ids = list(range(K))
+    site = 'wasmCWriteModuleImplementation'
+    ref = {}
+    for pretty in (0, 1):
+        for multiple in (0, 1):
+            files = R.render(it, mk, K, all_ids, [], pretty, multiple)
+            chk.expect(sorted(files) == ['mod.c', 'mod.h'], 'R09.7', 'single-file[p%d,m%d]' % (pretty, multiple),
+                       'functionsPerFile = number of functions (what main() substitutes for -f 0) without reference module writes %r; expected one implementation file and the header' % sorted(files), site)
+            ref[(pretty, multiple)] = function_defs(files['mod.c'])
+            chk.expect(len(ref[(pretty, multiple)]) == K and all(len(v) == 1 for v in ref[(pretty, multiple)].values()), 'R09.7',
+                       'single-file-defs[p%d,m%d]' % (pretty, multiple), 'single-file output defines %r' % {k: len(v) for k, v in ref[(pretty, multiple)].items()}, site)
+    # main() maps -f 0 to "all functions in one file"
+    mtu = astdb.dump_ast(astdb.src('w2c2/main.c'))
+    mb = astdb.fn_body(mtu.functions['main'])
+    norm = [n_ for n_ in walk(mb) if n_.get('kind') == 'IfStmt' and re.fullmatch(r'functionsPerFile\s*==\s*0', astdb.expr_text(strip(n_['inner'][0], casts=True)))
+            and any(a.get('kind') == 'BinaryOperator' and a.get('opcode') == '=' and astdb.expr_text(strip(kids(a)[0])) == 'functionsPerFile'
+                    and astdb.expr_text(strip(kids(a)[1], casts=True)).endswith('functions.count') for a in walk(n_['inner'][1]))]
+    chk.expect(len(norm) == 1, 'R09.7', 'f0-means-single-file', 'main() does not replace -f 0 by the number of functions (found %d such statements)' % len(norm), 'main:functions-per-file')
+    splits = [(all_ids, []), ([3, 0, 5, 1, 4, 2], []), ([0, 2, 4], [1, 3, 5]), ([], all_ids), ([5], [4, 3, 2, 1, 0])]
+    fpfs = list(range(0, K + 2))
+    modes = [(0, 0), (1, 0), (0, 1), (1, 1)] if tier == 'thorough' else [(0, 0), (1, 1)]
+    witness = []
+    n = 0
+    for static, dynamic in splits:
+        for fpf in fpfs:
+            for pretty, multiple in modes:
+                label = 'f=%d,static=%r,dynamic=%r,p%d,m%d' % (fpf, static, dynamic, pretty, multiple)
+                files = R.render(it, mk, fpf, static, dynamic, pretty, multiple)
+                n += 1
+                defs = {}
+                for name, text in files.items():
+                    if name.endswith('.c'):
+                        for fn_, texts in function_defs(text).items():
+                            for t in texts:
+                                defs.setdefault(fn_, []).append((name, t))
+                want = set(ref[(pretty, multiple)])
+                once = set(defs) == want and all(len(v) == 1 for v in defs.values())
+                chk.expect(once, 'R09.7', 'once[%s]' % label,
+                           'functions defined across %r: %r; every defined function must be emitted exactly once (expected %r)'
+                           % (sorted(files), {k: [x[0] for x in v] for k, v in sorted(defs.items())}, sorted(want)), site + ':once')
+                same = all(len(v) == 1 and v[0][1] == ref[(pretty, multiple)][k][0] for k, v in defs.items() if k in ref[(pretty, multiple)])
+                chk.expect(same, 'R09.7', 'same-text[%s]' % label,
+                           'a function text differs from the single-file output: %r' % [k for k, v in defs.items() if k in ref[(pretty, multiple)] and v[0][1] != ref[(pretty, multiple)][k][0]],
+                           site + ':same-text')
+                # numbering and emptiness of split files
+                for prefix in 'sd':
+                    nums = sorted(int(nm[1:11]) for nm in files if re.fullmatch(prefix + r'\d{10}\.c', nm))
+                    chk.expect(nums == list(range(len(nums))), 'R09.7', 'numbering[%s,%s]' % (label, prefix),
+                               'split files %s are numbered %r (must be 0.. without gaps)' % (prefix, nums), site + ':numbering')
+                empty = [nm for nm in files if re.fullmatch(r'[sd]\d{10}\.c', nm) and not function_defs(files[nm])]
+                chk.expect(not empty, 'R09.7', 'no-empty-file[%s]' % label, 'split files without any function: %r' % empty, site + ':empty-file')
+                other = [nm for nm in files if not re.fullmatch(r'[sd]\d{10}\.c|mod\.c|mod\.h', nm)]
+                chk.expect(not other, 'R09.7', 'file-names[%s]' % label, 'unexpected output files %r' % other, site + ':file-names')
+                if (pretty, multiple) == modes[0] or tier == 'thorough':
+                    witness.append((label, files))
+    # compile witness: every file on its own against the generated header
+    picked = witness if tier == 'thorough' else witness[::5]
+    nc = 0
+    with tempfile.TemporaryDirectory(prefix='w2c2-c09-') as d:
+        for wi, (label, files) in enumerate(picked):
+            sub = os.path.join(d, str(wi))
+            os.makedirs(sub)
+            for nm, text in files.items():
+                with open(os.path.join(sub, nm), 'w') as f:
+                    f.write(text)
+            for cc in (('gcc', 'clang') if tier == 'thorough' or wi % 2 == 0 else ('gcc',)):
+                cfiles = sorted(nm for nm in files if nm.endswith('.c'))
+                r = subprocess.run([cc, '-std=gnu89', '-fsyntax-only', '-DWASM_THREADS_PTHREADS', '-I' + astdb.src('w2c2'), '-I' + sub,
+                                    '-Werror=implicit-function-declaration', '-Werror=incompatible-pointer-types', '-Werror=int-conversion',
+                                    '-Wno-unused-value', '-Wno-unused-label'] + [os.path.join(sub, c) for c in cfiles],
+                                   capture_output=True, text=True, timeout=600)
+                nc += len(cfiles)
+                errs = [l for l in r.stderr.splitlines() if 'error' in l][:3]
+                chk.expect(r.returncode == 0, 'R09.7', 'compiles[%s,%s]' % (label, cc),
+                           'an emitted file does not compile on its own against the generated header (%s): %s' % (cc, ' | '.join(errs)[:400]),
+                           site + ':compile')
+    chk.extra['whole_outputs_rendered'] = n
+    chk.extra['files_compiled'] = nc
+
+
+def check_worker_call(chk, tu):
+    """the worker hands the copied task fields to the file writer in the order of its parameters; the sequential build passes
+    the same values directly"""
+    wb = astdb.fn_body(tu.functions[WORKER])
+    calls = [c for c in walk(wb) if c.get('kind') == 'CallExpr' and astdb.callee_name(c) == 'wasmCWriteImplementationFile']
+    chk.require(len(calls) == 1, 'worker calls wasmCWriteImplementationFile %d times' % len(calls))
+    params = [p.get('name') for p in astdb.fn_params(tu.functions['wasmCWriteImplementationFile'])]
+    inits = {}
+    for d in walk(wb):
+        if d.get('kind') == 'VarDecl' and d.get('init'):
+            inits[d['name']] = astdb.expr_text(strip([c for c in kids(d) if c.get('kind')][-1], casts=True))
+    args = [astdb.expr_text(strip(a, casts=True)) for a in astdb.call_args(calls[0])]
+    for pn, a in zip(params, args):
+        chk.expect(inits.get(a) == 'task->' + pn, 'R09.7', 'worker-arg:' + pn,
+                   'the worker passes %r (= %r) for parameter %s of wasmCWriteImplementationFile; expected the copy of task->%s'
+                   % (a, inits.get(a), pn, pn), WORKER + ':call-args')
+    # the producer fills each task field from the value the sequential build passes for the same parameter
+    pb = astdb.fn_body(tu.functions[PRODUCER])
+    stores = {}
+    for n in walk(pb):
+        if n.get('kind') == 'BinaryOperator' and n.get('opcode') == '=' and strip(kids(n)[0]).get('kind') == 'MemberExpr' \
+                and astdb.expr_text(strip(kids(strip(kids(n)[0]))[0])) == 'task':
+            stores.setdefault(strip(kids(n)[0]).get('name'), []).append(astdb.expr_text(strip(kids(n)[1], casts=True)))
+    want = {'module': 'module', 'moduleName': 'moduleName', 'headerName': 'headerName', 'filePrefix': 'filePrefix', 'fileIndex': 'fileIndex',
+            'functionsPerFile': 'functionsPerFile', 'startFunctionIDIndex': 'startFunctionIDIndex', 'functionIDs': 'functionIDs',
+            'pretty': 'options.pretty', 'debug': 'options.debug', 'multipleModules': 'options.multipleModules'}
+    for field, src in want.items():
+        chk.expect(stores.get(field) == [src], 'R09.7', 'task-field:' + field,
+                   'task.%s is assigned %r; the sequential build passes %s' % (field, stores.get(field), src), PRODUCER + ':task-fields')
+
+
 def run(chk):
     chk.explanation = (
         'Writer pool: structured lock-region must-analysis of the worker and the producer in the HAS_PTHREAD=1 configuration (facts held/free '
@@ -656,6 +796,8 @@ def run(chk):
     n_t = check_neutrality(chk, tus)
     n_w = check_twins(chk, tus)
     c06.check_data_modes(chk, tus, 'R09.6')
+    check_worker_call(chk, tu)
+    check_whole_outputs(chk, chk.tier)
     chk.extra['template_pairs'] = n_t
     chk.extra['twin_evaluations'] = n_w
     chk.floor('R09.1', 30)
@@ -664,3 +806,4 @@ def run(chk):
     chk.floor('R09.4', 500)
     chk.floor('R09.5', 60)
     chk.floor('R09.6', 20)
+    chk.floor('R09.7', 300)
